@@ -191,9 +191,7 @@ def build_cases(tier):
             for n in (1, 2, 3):
                 offs = [base + 4096 * k for k in range(n + 1)]
                 lo, hi = max(base, FLOOR), offs[-1]
-                Ls = faults.boundary_limits(offs[:-1], 8, 4096, lo, hi) if q else list(range(lo, hi, 1))
-                if not q:
-                    Ls = sorted(set(faults.boundary_limits(offs[:-1], 8, 4096, lo, hi)) | set(range(lo, hi, 97)))
+                Ls = faults.boundary_limits(offs[:-1], 8, 4096, lo, hi) if q else list(range(lo, hi, 1))   # thorough: every byte
                 for L in Ls:
                     cases.append({'start': start, 'atom_rank': ar, 'entry': 'iterappend-list', 'nitems': n,
                                   'kind': 'rlimit', 'position': None, 'L': L})
